@@ -15,7 +15,7 @@ pub const DEF: PropDef = PropDef {
     run,
     replay,
     level: "exploration",
-    rule: "cases = (protocol name, suite, backend pair, payload length per handshake message in 0..=max, transport script of up to 30 messages with direction interleaving, stateful/stateless per side, stateless nonce choice and delivery order); static keys come from Builder::generate_keypair and ephemerals from the library's own OS RNG (recorded); non-trivial = session finished on both sides and at least one transport message delivered; distinct by (name, suite, payload length vector, transport script)",
+    rule: "cases = (protocol name, suite, backend pair, payload length per handshake message in 0..=max, transport script of up to 30 messages with direction interleaving, stateful/stateless per side, stateless nonce choice and delivery order, how the PSKs reach each side: at build time, or by set_psk just before the first message that needs them on the initiator only / the responder only / both); static keys come from Builder::generate_keypair and ephemerals from the library's own OS RNG (recorded); non-trivial = session finished on both sides and at least one transport message delivered; distinct by (name, suite, payload length vector, transport script)",
     technique: "round-trip property over generated honest sessions with real randomness (proptest + name-space enumeration); pattern message counts from an independent table",
     assumptions: &["the number of messages per pattern is taken from the harness's own transcription of the specification's pattern table"],
     panic_is_violation: true,
@@ -96,6 +96,10 @@ pub fn oracle(c: &Case, acc: &mut Acc) -> CaseResult {
         },
         None => (SharedRng::os(), SharedRng::os()),
     };
+    // how the PSKs reach each side (derived from `fill`): at build time, or by set_psk just before
+    // the first message whose pattern has that psk token - on one side only or on both
+    let late_mode = if c.psks.is_empty() { 0 } else { (c.fill / 7) % 4 };
+    let (late_i, late_r) = (late_mode == 1 || late_mode == 3, late_mode == 2 || late_mode == 3);
     let build = |init: bool| -> Result<snow::HandshakeState, Fail> {
         let (me, peer, be, rng) = if init { (&ki, &kr, c.backend_i, &rng_i) } else { (&kr, &ki, c.backend_r, &rng_r) };
         let mut b = snow::Builder::with_resolver(params(&name)?, Box::new(VResolver::new(be, Some(rng.clone()), None)));
@@ -108,7 +112,11 @@ pub fn oracle(c: &Case, acc: &mut Acc) -> CaseResult {
         if !prologue.is_empty() {
             b = b.prologue(&prologue).map_err(|e| Fail::new(format!("{e:?}")))?;
         }
+        let late = if init { late_i } else { late_r };
         for (n, k) in &psks {
+            if late {
+                continue;
+            }
             b = b.psk(*n, k).map_err(|e| Fail::new(format!("{e:?}")))?;
         }
         let r = if init { b.build_initiator() } else { b.build_responder() };
@@ -127,6 +135,8 @@ pub fn oracle(c: &Case, acc: &mut Acc) -> CaseResult {
     };
     let lay = if c.hfs { None } else { Some(rn::layouts(&pat.with_psks(&c.psks).ok_or("psk set")?, c.suite.dh)) };
     let mut plens = Vec::new();
+    let toks_all = pat.with_psks(&c.psks).ok_or("psk set")?;
+    acc.label(format!("psk_supply:{}", ["build/none", "initiator_late", "responder_late", "both_late"][late_mode as usize]));
     for idx in 0..nm {
         ensure!(!hi.is_handshake_finished() && !hr.is_handshake_finished(), "{name}: finished reported before message {idx} of {nm}; {}", keyinfo());
         let max = match &lay {
@@ -138,6 +148,19 @@ pub fn oracle(c: &Case, acc: &mut Acc) -> CaseResult {
         plens.push(plen);
         let payload = expand(c.seed, 1000 + idx as u64, plen);
         let i_sends = idx % 2 == 0;
+        if late_mode != 0 {
+            for t in &toks_all[idx] {
+                if let rn::Tok::Psk(n) = t {
+                    let k = psks.iter().find(|p| p.0 == *n).ok_or("psk")?.1;
+                    if late_i {
+                        hi.set_psk(*n as usize, &k).map_err(|e| Fail::new(format!("{name}: set_psk({n}) on the initiator before message {idx}: {e:?}")))?;
+                    }
+                    if late_r {
+                        hr.set_psk(*n as usize, &k).map_err(|e| Fail::new(format!("{name}: set_psk({n}) on the responder before message {idx}: {e:?}")))?;
+                    }
+                }
+            }
+        }
         let (w, r) = if i_sends { (&mut hi, &mut hr) } else { (&mut hr, &mut hi) };
         ensure!(w.is_my_turn() && !r.is_my_turn(), "{name}: turn indicators wrong before message {idx}");
         let msg = hs_write(w, &payload, 65535 + 16)
@@ -145,7 +168,7 @@ pub fn oracle(c: &Case, acc: &mut Acc) -> CaseResult {
         if let Some(l) = &lay {
             ensure!(msg.len() == l[idx].overhead + plen, "{name}: message {idx} has length {} but overhead {} + payload {plen} expected", msg.len(), l[idx].overhead);
         }
-        let got = hs_read(r, &msg, plen + 16).map_err(|e| Fail::new(format!("{name}: honest read of message {idx} failed: {e:?}; {}", keyinfo())))?;
+        let got = hs_read(r, &msg, plen + 16).map_err(|e| Fail::new(format!("{name}: honest read of message {idx} failed (psk supply mode {late_mode}: 0 build, 1 initiator by set_psk, 2 responder by set_psk, 3 both): {e:?}; {}", keyinfo())))?;
         ensure!(got == payload, "{name}: handshake payload {idx} not returned intact; {}", keyinfo());
     }
     ensure!(hi.is_handshake_finished() && hr.is_handshake_finished(), "{name}: handshake not finished on both sides after {nm} messages; {}", keyinfo());
